@@ -22,6 +22,9 @@ pub enum Fault {
     /// question `idx` gets this (type, class) != (A, IN)
     NotInA { idx: u16, qtype: u16, qclass: u16 },
     Truncated(u16),
+    /// the header announces authority / additional records (e.g. the EDNS0 OPT record of every
+    /// modern resolver) that are missing or cut short: a truncated message
+    MissingRecords { ns: u16, ar: u16, partial: Hex },
 }
 
 #[derive(Clone, Debug, Serialize, Deserialize, PartialEq)]
@@ -31,6 +34,9 @@ pub struct Case {
     pub dport: u16,
     pub q: DnsQuery,
     pub fault: Fault,
+    /// IP header fields the responder is not documented to look at
+    #[serde(default)]
+    pub tweak: Option<IpTweak>,
 }
 
 pub fn case_strategy() -> impl Strategy<Value = Case> {
@@ -39,13 +45,15 @@ pub fn case_strategy() -> impl Strategy<Value = Case> {
         2 => (any::<u16>(), prop_oneof![3 => prop::sample::select(vec![2u16, 5, 12, 15, 16, 28, 33, 255, 0]), 2 => Just(1u16), 1 => prop::sample::select(vec![0x0101u16, 0x8001, 0x0100, 0x4001]), 1 => any::<u16>()], prop_oneof![3 => Just(1u16), 1 => prop::sample::select(vec![3u16, 4, 255, 0]), 2 => prop::sample::select(vec![0x8001u16, 0x0101, 0x0100, 0x8003, 0x4001, 0xff01, 0x0081]), 1 => any::<u16>()])
             .prop_map(|(idx, qtype, qclass)| Fault::NotInA { idx, qtype: if qtype == 1 && qclass == 1 { 28 } else { qtype }, qclass }),
         2 => any::<u16>().prop_map(Fault::Truncated),
+        1 => (prop_oneof![2 => Just(0u16), 1 => 1u16..3], prop_oneof![3 => Just(1u16), 1 => 1u16..4], prop_oneof![2 => Just(vec![]), 1 => Just(vec![0u8]), 1 => Just(vec![0, 0, 41, 0x10, 0, 0, 0]), 1 => proptest::collection::vec(any::<u8>(), 1..10)]).prop_map(|(ns, ar, partial)| Fault::MissingRecords { ns, ar, partial: Hex(partial) }),
     ];
-    (scenario_quiet(Fam::V4), port(), port(), dns_query(8), fault).prop_map(|(scn, sport, dport, q, fault)| Case { scn, sport, dport, q, fault })
+    (scenario_levels(Fam::V4), port(), port(), dns_query(8), fault, prop::option::weighted(0.25, crate::vf::props::c03::ip_tweak())).prop_map(|(scn, sport, dport, q, fault, tweak)| Case { scn, sport, dport, q, fault, tweak })
 }
 
 pub fn check(c: &Case, st: &mut Stats) -> Check {
     Sut::reset();
     st.eval();
+    let _ambient = AmbientGuard::set(&c.tweak);
     let sut = Sut::new(&c.scn.cfg);
     let mut q = c.q.clone();
     let k = q.questions.len();
@@ -62,8 +70,17 @@ pub fn check(c: &Case, st: &mut Stats) -> Check {
             negative = true;
         }
         Fault::Truncated(_) => negative = true,
+        Fault::MissingRecords { .. } => negative = true,
     }
     let mut bytes = q.bytes();
+    if let Fault::MissingRecords { ns, ar, partial } = &c.fault {
+        bytes[8] = (*ns >> 8) as u8;
+        bytes[9] = *ns as u8;
+        bytes[10] = (*ar >> 8) as u8;
+        bytes[11] = *ar as u8;
+        // fewer bytes than the smallest record (root name + type + class + ttl + rdlength = 11)
+        bytes.extend_from_slice(&partial[..partial.len().min(10)]);
+    }
     if let Fault::Truncated(p) = &c.fault {
         if bytes.len() <= 12 && k == 0 {
             // a bare header truncated: still "truncated"
@@ -85,7 +102,7 @@ pub fn check(c: &Case, st: &mut Stats) -> Check {
         Out::Silence => None,
         Out::Panic(p) => return Err(Failure::keyed(p.key(), format!("panic: {} {}", p.file, p.msg))),
     };
-    st.class(&format!("{}:k={}", match &c.fault { Fault::None => "query", Fault::NotInA { .. } => "fault:not-IN/A", Fault::Truncated(_) => "fault:truncated" }, k.min(4)));
+    st.class(&format!("{}:k={}", match &c.fault { Fault::None => "query", Fault::NotInA { .. } => "fault:not-IN/A", Fault::Truncated(_) => "fault:truncated", Fault::MissingRecords { .. } => "fault:announced-records-missing" }, k.min(4)));
     if nul {
         st.class("label-with-NUL");
     }
@@ -99,13 +116,13 @@ pub fn check(c: &Case, st: &mut Stats) -> Check {
     if negative {
         // truncated to nothing but a valid shorter message? a prefix that ends exactly after a
         // complete question list with a smaller count cannot occur: the count is in the header.
-        if k >= 1 || matches!(c.fault, Fault::Truncated(_)) {
+        if k >= 1 || matches!(c.fault, Fault::Truncated(_) | Fault::MissingRecords { .. }) {
             st.nontrivial_hash(fnv(&bytes));
         }
         return match app {
             None => Ok(()),
             Some(a) if nul => Err(Failure::keyed("nul-in-label", format!("label containing a zero octet: faulty message answered: {} -> {}", show(), hex(&a[..a.len().min(160)])))),
-            Some(a) => vfail!("{} answered: {} -> {}", if matches!(c.fault, Fault::Truncated(_)) { "truncated DNS message" } else { "DNS message with a question that is not IN/A" }, show(), hex(&a[..a.len().min(160)])),
+            Some(a) => vfail!("{} answered: {} -> {}", if matches!(c.fault, Fault::Truncated(_) | Fault::MissingRecords { .. }) { "truncated DNS message" } else { "DNS message with a question that is not IN/A" }, show(), hex(&a[..a.len().min(160)])),
         };
     }
     if k == 0 {
